@@ -82,7 +82,7 @@ struct Agg {
     probes: BTreeMap<String, u64>,
     faults: BTreeMap<String, u64>,
     kinds: BTreeMap<String, u64>,
-    violations: Vec<(u64, Violation)>,
+    violations: Vec<(Scenario, Violation)>,
     others: BTreeMap<String, u64>,
     harness: Vec<String>,
     samples: Vec<serde_json::Value>,
@@ -103,7 +103,7 @@ fn add(agg: &mut Agg, prop: &str, run_seed: u64, scen: &Scenario, r: &Report) {
     *agg.sched_kinds.entry(format!("{:?}", scen.sched)).or_default() += 1;
     for v in &r.violations {
         if v.property == "HARNESS" { agg.harness.push(format!("seed {run_seed}: {}", v.detail)); }
-        else if v.property == prop { agg.violations.push((run_seed, v.clone())); }
+        else if v.property == prop { agg.violations.push((scen.clone(), v.clone())); }
         else { *agg.others.entry(format!("{}:{}", v.property, v.class)).or_default() += 1; }
     }
     if agg.samples.len() < 3 && nontrivial { agg.samples.push(sample_of(scen, r)); }
@@ -183,17 +183,33 @@ pub fn check(prop: &str, tier: Tier, args: &[String]) -> i32 {
             if agg.lock().unwrap().violations.len() >= 8 { break; }
             // C13: eight consecutive runs share one history and differ in configuration / schedule
             let run_seed = if prop == "C13" { (mix(seed.wrapping_mul(0x9E3779B97F4A7C15) ^ mix(i / 8)) & !7) | (i % 8) } else { mix(seed.wrapping_mul(0x9E3779B97F4A7C15) ^ mix(i)) };
-            let scen = crate::props::make(&prop, tier, run_seed);
-            match run_scenario_child(&scen, &format!("{i}"), run_timeout) {
-                ChildOut::Report(r) => add(&mut agg.lock().unwrap(), &prop, run_seed, &scen, &r),
+            let base = crate::props::make(&prop, tier, run_seed);
+            // fault-plan properties: a dry run yields the I/O events of the target step, from which
+            // the explicit fault plans (crash points, loss patterns, failing operations) are derived
+            let scens: Vec<Scenario> = if base.extra.get("plan").is_some() {
+                let mut dry = base.clone();
+                dry.extra["dry"] = serde_json::Value::Bool(true);
+                match run_scenario_child(&dry, &format!("{i}d"), run_timeout) {
+                    ChildOut::Report(r) => {
+                        if !r.violations.is_empty() { add(&mut agg.lock().unwrap(), &prop, run_seed, &dry, &r); continue; }
+                        crate::props::expand(&base, &r, tier)
+                    }
+                    ChildOut::Abort(msg) => { let mut a = agg.lock().unwrap(); a.evaluations += 1; a.violations.push((dry.clone(), Violation { property: prop.clone(), class: "process-abort".into(), detail: msg, step: None })); continue; }
+                    ChildOut::Timeout => { timeouts.lock().unwrap().push(run_seed); continue; }
+                }
+            } else { vec![base] };
+            for (j, scen) in scens.iter().enumerate() {
+            match run_scenario_child(scen, &format!("{i}-{j}"), run_timeout) {
+                ChildOut::Report(r) => add(&mut agg.lock().unwrap(), &prop, run_seed, scen, &r),
                 ChildOut::Abort(msg) => {
                     // a process abort (double panic, stack overflow, signal) inside the run
                     let v = Violation { property: prop.clone(), class: "process-abort".into(), detail: msg, step: None };
                     let mut a = agg.lock().unwrap();
                     a.evaluations += 1;
-                    a.violations.push((run_seed, v));
+                    a.violations.push((scen.clone(), v));
                 }
                 ChildOut::Timeout => timeouts.lock().unwrap().push(run_seed),
+            }
             }
         }));
     }
@@ -209,14 +225,14 @@ pub fn check(prop: &str, tier: Tier, args: &[String]) -> i32 {
     let mut n_viol = 0;
     let mut known_hits: BTreeMap<String, u64> = BTreeMap::new();
     let vio = std::mem::take(&mut agg.violations);
-    for (run_seed, v) in &vio {
+    for (scen, v) in &vio {
+        let run_seed = &scen.run_seed;
         if let Some(k) = known_match(&known, v) { *known_hits.entry(format!("property={} {}", k.property, k.what)).or_default() += 1; continue; }
         n_viol += 1;
         let key = format!("{}:{}", v.property, v.class);
         if reported.contains(&key) { continue; }
         reported.insert(key);
-        let scen = crate::props::make(prop, tier, *run_seed);
-        let path = write_replay(prop, *run_seed, &scen, v, tier, t0, budget);
+        let path = write_replay(prop, *run_seed, scen, v, tier, t0, budget);
         lines.push(format!("VIOLATION property={} replay={}", prop, path.display()));
         println!("  class={} step={:?} detail={}", v.class, v.step, v.detail);
         exit = 1;
@@ -352,7 +368,7 @@ fn write_replay(prop: &str, run_seed: u64, scen: &Scenario, v: &Violation, _tier
     let final_v = match run_scenario_child(&min, "final", Duration::from_secs(300)) { ChildOut::Report(r) => r.violations.into_iter().find(|x| x.property == v.property && x.class == v.class).unwrap_or_else(|| v.clone()), _ => v.clone() };
     let dir = verif_root().join("replays");
     let _ = std::fs::create_dir_all(&dir);
-    let path = dir.join(format!("{prop}-{run_seed}.json"));
+    let path = dir.join(format!("{prop}-{run_seed}-{:04x}.json", shape_hash(scen) & 0xffff));
     let doc = json!({
         "property": prop, "violation": final_v.class, "first_divergence": final_v.detail, "step": final_v.step, "run_seed": run_seed,
         "confirmed_on_rerun": confirm, "minimisation": { "candidates_tried": tried, "steps_before": scen.steps.len(), "steps_after": min.steps.len(), "faults_before": scen.faults.len(), "faults_after": min.faults.len() },
